@@ -699,7 +699,8 @@ func (ref *Node) DoNewObject(t reflect.Type, m meta.Definition, insideList bool)
 		switch x := m.(type) {
 		case *meta.List:
 			keyMeta := x.KeyMeta()
-			if len(keyMeta) == 1 {
+			// only the list itself is indexed by key, a list item is a container
+			if len(keyMeta) == 1 && !insideList {
 				// support some common key types, but anything too unusual should have
 				// custom implementation and would default to map[interface{}]interface{}
 				// which is likely fine
